@@ -76,8 +76,8 @@ pub fn six_entry_points<S: Src>(s: &mut S) {
     let v = s.u16();
     crate::stubs::set_fixed(v, [w[0], w[1], w[2], w[3], w[4]]);
     let h = Six::from(w);
-    reach!(s, h.is_valid(), "C02.six_entry_points.reach_valid");
-    reach!(s, !h.is_valid(), "C02.six_entry_points.reach_invalid");
+    reach!(s, valid_hand(&w), "C02.six_entry_points.reach_valid");
+    reach!(s, !all_distinct(&w), "C02.six_entry_points.reach_invalid");
     #[cfg(not(kani))]
     let v = {
         let _ = v;
@@ -91,7 +91,6 @@ pub fn six_entry_points<S: Src>(s: &mut S) {
     check!(s, h.hand_rank() == HandRank::from(v), "C02.six_entry_points.hand_rank_is_from_value");
     let want = if h.is_valid() { v } else { 0 };
     check!(s, h.hand_rank_value_validated() == want, "C02.six_entry_points.validated");
-    check!(s, h.hand_rank_validated() == HandRank::from(want), "C02.six_entry_points.hand_rank_validated");
 }
 
 pub fn seven_entry_points<S: Src>(s: &mut S) {
@@ -101,8 +100,8 @@ pub fn seven_entry_points<S: Src>(s: &mut S) {
     let v = s.u16();
     crate::stubs::set_fixed(v, [w[0], w[1], w[2], w[3], w[4]]);
     let h = Seven::from(w);
-    reach!(s, h.is_valid(), "C02.seven_entry_points.reach_valid");
-    reach!(s, !h.is_valid(), "C02.seven_entry_points.reach_invalid");
+    reach!(s, valid_hand(&w), "C02.seven_entry_points.reach_valid");
+    reach!(s, !all_distinct(&w), "C02.seven_entry_points.reach_invalid");
     #[cfg(not(kani))]
     let v = {
         let _ = v;
@@ -116,5 +115,101 @@ pub fn seven_entry_points<S: Src>(s: &mut S) {
     check!(s, h.hand_rank() == HandRank::from(v), "C02.seven_entry_points.hand_rank_is_from_value");
     let want = if h.is_valid() { v } else { 0 };
     check!(s, h.hand_rank_value_validated() == want, "C02.seven_entry_points.validated");
-    check!(s, h.hand_rank_validated() == HandRank::from(want), "C02.seven_entry_points.hand_rank_validated");
+}
+
+// ------------------------------------------------------------------ native-only bodies (concretiser)
+
+/// rule-based value of the best five-card subset, straight from the cards
+fn best_by_rules(cards: &[(u8, u8)]) -> u16 {
+    use super::c13::{same_suit, sort5_desc};
+    use crate::spec::poker::ordinal;
+    let n = cards.len();
+    let mut best = u16::MAX;
+    let mut m = 0u32;
+    while m < (1u32 << n) {
+        if m.count_ones() == 5 {
+            let mut r = [0u8; 5];
+            let mut su = [0u8; 5];
+            let mut k = 0;
+            let mut j = 0;
+            while j < n {
+                if m & (1 << j) != 0 {
+                    r[k] = cards[j].0;
+                    su[k] = cards[j].1;
+                    k += 1;
+                }
+                j += 1;
+            }
+            let v = ordinal(&sort5_desc(&r), same_suit(&su));
+            if v < best {
+                best = v;
+            }
+        }
+        m += 1;
+    }
+    best
+}
+
+/// native only: six distinct cards, value == rule-based evaluation of the six cards
+pub fn six_rule_based<S: Src>(s: &mut S) {
+    let mut c = [(0u8, 0u8); 6];
+    let mut w = [0u32; 6];
+    let mut i = 0;
+    while i < 6 {
+        let (r, su, x) = draw_card(s);
+        c[i] = (r, su);
+        w[i] = x;
+        i += 1;
+    }
+    assume!(s, all_distinct(&w));
+    let want = best_by_rules(&c);
+    let h = Six::from(w);
+    check!(s, h.hand_rank_value() == want, "C02.six_rule_based.value_is_best_hand_by_rules");
+    check!(s, h.hand_rank().value == want, "C02.six_rule_based.hand_rank_value_field");
+}
+
+/// native only: seven distinct cards, value == rule-based evaluation of the seven cards
+pub fn seven_rule_based<S: Src>(s: &mut S) {
+    let mut c = [(0u8, 0u8); 7];
+    let mut w = [0u32; 7];
+    let mut i = 0;
+    while i < 7 {
+        let (r, su, x) = draw_card(s);
+        c[i] = (r, su);
+        w[i] = x;
+        i += 1;
+    }
+    assume!(s, all_distinct(&w));
+    let want = best_by_rules(&c);
+    let h = Seven::from(w);
+    check!(s, h.hand_rank_value() == want, "C02.seven_rule_based.value_is_best_hand_by_rules");
+    check!(s, h.hand_rank().value == want, "C02.seven_rule_based.hand_rank_value_field");
+}
+
+/// hand_rank_validated() is the rank of hand_rank_value_validated(): with the latter
+/// replaced by "returns v" for arbitrary v, forall words: hand_rank_validated() == from(v)
+pub fn validated_rank<S: Src>(s: &mut S) {
+    use ckc_rs::cards::five::Five;
+    use ckc_rs::hand_rank::HandRank;
+    let w = [s.u32(), s.u32(), s.u32(), s.u32(), s.u32(), s.u32(), s.u32()];
+    let v = s.u16();
+    crate::stubs::set_fixed(v, [w[0], w[1], w[2], w[3], w[4]]);
+    let h5 = Five::from([w[0], w[1], w[2], w[3], w[4]]);
+    let h6 = Six::from([w[0], w[1], w[2], w[3], w[4], w[5]]);
+    let h7 = Seven::from(w);
+    #[cfg(not(kani))]
+    {
+        // natively the real validated value is what the rank must be built from
+        check!(s, valid_hand(&w[..5]) || h5.hand_rank_validated() == HandRank::from(0), "C02.validated_rank.five");
+        check!(s, valid_hand(&w[..6]) || h6.hand_rank_validated() == HandRank::from(0), "C02.validated_rank.six");
+        check!(s, valid_hand(&w) || h7.hand_rank_validated() == HandRank::from(0), "C02.validated_rank.seven");
+        let _ = v;
+        return;
+    }
+    #[cfg(kani)]
+    {
+        check!(s, h5.hand_rank_validated() == HandRank::from(v), "C02.validated_rank.five");
+        check!(s, h6.hand_rank_validated() == HandRank::from(v), "C02.validated_rank.six");
+        check!(s, h7.hand_rank_validated() == HandRank::from(v), "C02.validated_rank.seven");
+    }
 }
